@@ -147,6 +147,26 @@ Theorem frame_remove_custom_stix : forall W obj h h' r,
 Proof. exact frame_remove_custom_l. Qed.
 Print Assumptions frame_remove_custom_stix.
 
+(* clear_markings / set_markings with the marking_ref= / lang= options *)
+Theorem frame_clear_markings_options : forall W mr lg obj selectors h h' r,
+  granular_clear_f as_written W mr lg obj selectors h = (h', r) -> unchanged h h'.
+Proof. exact frame_clear_opts_l. Qed.
+Print Assumptions frame_clear_markings_options.
+
+Theorem frame_set_markings_options : forall W mr lg obj marking selectors h h' r,
+  granular_set_f as_written W mr lg obj marking selectors h = (h', r) -> unchanged h h'.
+Proof. exact frame_set_opts_l. Qed.
+Print Assumptions frame_set_markings_options.
+
+(* utils.deduplicate; copy.copy *)
+Theorem frame_deduplicate : forall lst h h' r, deduplicate lst h = (h', r) -> unchanged h h'.
+Proof. exact frame_deduplicate_l. Qed.
+Print Assumptions frame_deduplicate.
+
+Theorem frame_copy : forall v h h' r, shallow_copy v h = (h', r) -> unchanged h h'.
+Proof. exact frame_copy_l. Qed.
+Print Assumptions frame_copy.
+
 (* ---- bundle, factory ---- *)
 Theorem frame_bundle : forall W cls args kw h h' r,
   bundle as_written W cls args kw h = (h', r) -> unchanged h h'.
